@@ -89,6 +89,30 @@ func c08MakeUse(r *gen.Rand, spec gen.MsgSpec) c08Use {
 			v := append([]byte(nil), a.Value...)
 			bufs = append(bufs, v)
 			switch {
+			case a.Type == 0x0009 && len(v) <= 763: // typed setters write their own value layout into the (reused) buffer
+				if len(v)%2 == 0 {
+					setters = append(setters, stun.ErrorCodeAttribute{Code: stun.ErrorCode(300 + len(v)%400), Reason: v})
+				} else {
+					setters = append(setters, stun.CodeStaleNonce)
+				}
+			case a.Type == 0x0020 || a.Type == 0x0001:
+				ip := make([]byte, 4+12*(len(v)%2))
+				copy(ip, v)
+				if a.Type == 0x0020 {
+					setters = append(setters, &stun.XORMappedAddress{IP: ip, Port: len(v) * 257 % 65536})
+				} else {
+					setters = append(setters, &stun.MappedAddress{IP: ip, Port: len(v) * 257 % 65536})
+				}
+			case a.Type == 0x000A:
+				ua := make(stun.UnknownAttributes, len(v)%9)
+				for k := range ua {
+					ua[k] = stun.AttrType(uint16(v[k])<<8 | uint16(k))
+				}
+				setters = append(setters, ua)
+			case a.Type == 0x0014 && len(v) <= 763:
+				setters = append(setters, stun.Realm(v))
+			case a.Type == 0x0015 && len(v) <= 763:
+				setters = append(setters, stun.Nonce(v))
 			case a.Type == 0x8022 && len(v) <= 763:
 				setters = append(setters, stun.Software(v))
 			case a.Type == 0x0006 && len(v) <= 513:
@@ -155,6 +179,54 @@ func c08MakeUse(r *gen.Rand, spec gen.MsgSpec) c08Use {
 	}
 }
 
+// c08FollowUp makes a use that depends on what the message currently holds: the same datagram arriving again after the
+// application edited the decoded fields, or a re-encode after editing the attribute list in the struct.
+func c08FollowUp(r *gen.Rand, m *stun.Message) c08Use {
+	snapshot := make(stun.Attributes, len(m.Attributes))
+	for i, a := range m.Attributes {
+		snapshot[i] = stun.RawAttribute{Type: a.Type, Length: a.Length, Value: append([]byte(nil), a.Value...)}
+	}
+	if r.Bool() {
+		// a retransmission: byte for byte what m.Raw holds, decoded into m after its fields were edited
+		data := append([]byte(nil), m.Raw...)
+		m.Type = stun.NewType(stun.Method(r.Intn(0x1000)), stun.MessageClass(r.Intn(4)))
+		if r.Bool() {
+			m.TransactionID = r.TID()
+		}
+		if len(m.Attributes) > 0 {
+			m.Attributes[r.Intn(len(m.Attributes))].Type = stun.AttrType(r.AttrType())
+		}
+		if len(m.Attributes) > 1 && r.Bool() {
+			m.Attributes[0], m.Attributes[1] = m.Attributes[1], m.Attributes[0]
+		}
+
+		return c08Use{"edit fields;Decode(same bytes)", func(x *stun.Message) error { return stun.Decode(data, x) }, func() {
+			for i := range data {
+				data[i] ^= 0x5A
+			}
+		}}
+	}
+	retag, nt := -1, stun.AttrType(r.AttrType())
+	if len(snapshot) > 0 && r.Chance(2, 3) {
+		retag = r.Intn(len(snapshot))
+	}
+
+	return c08Use{fmt.Sprintf("retag attribute %d;Encode", retag), func(x *stun.Message) error {
+		if x != m { // the fresh twin gets the same attribute list by value
+			x.Attributes = make(stun.Attributes, len(snapshot))
+			for i, a := range snapshot {
+				x.Attributes[i] = stun.RawAttribute{Type: a.Type, Length: a.Length, Value: append([]byte(nil), a.Value...)}
+			}
+		}
+		if retag >= 0 {
+			x.Attributes[retag].Type = nt
+		}
+		x.Encode()
+
+		return nil
+	}, func() {}}
+}
+
 func hasType(s gen.MsgSpec, t uint16) bool {
 	for _, a := range s.Attrs {
 		if a.Type == t {
@@ -192,11 +264,15 @@ func c08(c *core.Ctx) {
 		}
 		var prev *gen.MsgSpec
 		var history []string
+		lastOK := false
 		n := 2 + r.Intn(chainMax-1)
 		for k := 0; k < n; k++ {
 			spec := c08Spec(r, prev)
 			prev = &spec
 			use := c08MakeUse(r, spec)
+			if k > 0 && lastOK && r.Chance(1, 5) {
+				use = c08FollowUp(r, m)
+			}
 			history = append(history, use.name)
 			fresh := &stun.Message{Type: m.Type, TransactionID: m.TransactionID}
 			if use.name == "ReadFrom" {
@@ -223,6 +299,7 @@ func c08(c *core.Ctx) {
 
 				return
 			}
+			lastOK = errM == nil
 			if errM != nil {
 				c.Count("failed_uses", 1)
 
